@@ -85,7 +85,17 @@ pub fn run_c13(cx: &mut Cx) {
     let seed = cx.run_seed;
     let msgs: Vec<CL03Message> = (0..n).map(|i| { let kind = cx.ch.weighted("attr_kind", &[8, 1, 1, 1]) as u64; gen_attr(seed, i as u64, kind) }).collect();
     let single = n == 1 && cx.ch.chance("single_attr_api", 1, 2);
-    cx.log(format!("session: key#{} n={n} single={single}", key.idx));
+    // "every base set": mostly the generated one (squares); also base sets a relying party could
+    // publish itself -- small primes, or units drawn without squaring (non-residues among them)
+    let base_kind = cx.ch.weighted("base_set", &[4, 1, 1]);
+    let bases_used: Vec<Integer> = match base_kind {
+        0 => key.bases.0.clone(),
+        1 => [2u32, 3, 5, 7, 11].iter().map(|&p| Integer::from(p)).collect(),
+        _ => (0..MAX_ATTR).map(|i| { let mut x = Integer::from_digits(&zksim_core::prng::bytes_for(seed, b"unit-base", i as u64, (LN / 8) as usize), rug::integer::Order::MsfBe) % &key.pk.N; while Integer::from(x.gcd_ref(&key.pk.N)) != 1 || x <= 1 { x += 1; } x }).collect(),
+    };
+    if base_kind != 0 { cx.count("probe.base_set_not_generated_by_the_library"); }
+    let key = if base_kind == 0 { key } else { Arc::new(KeyMat { idx: key.idx, pk: key.pk.clone(), sk: key.sk.clone(), bases: Bases(bases_used.clone()), cpk: key.cpk.clone(), bases2: key.bases2.clone(), cpk2: key.cpk2.clone(), tp_cpk: key.tp_cpk.clone(), bases_wide: key.bases_wide.clone(), cpk_wide: key.cpk_wide.clone() }) };
+    cx.log(format!("session: key#{} n={n} single={single} base set kind {base_kind}", key.idx));
     cx.cell(format!("shape|n{n}|single{}", single as u8));
     let (k1, m1) = (key.clone(), msgs.clone());
     let opts = StepOpts { eintr: if cx.ch.chance("eintr", 1, 6) { 1 } else { 0 }, short_reads: if cx.ch.chance("short", 1, 6) { 1 } else { 0 }, ..Default::default() };
@@ -149,8 +159,10 @@ pub fn run_c13(cx: &mut Cx) {
         let subsets: Vec<u64> = (0..(1u64 << n)).collect();
         for mask in subsets {
             // the list of hidden positions is a set: it is also given descending / rotated / shuffled
-            let (order, hidden) = reorder(&mut cx.ch, "hidden_list_order", &subset_of(mask, n));
+            let (order, mut hidden) = reorder(&mut cx.ch, "hidden_list_order", &subset_of(mask, n));
             if order != "as-given" { cx.count("probe.hidden_positions_listed_in_non_ascending_order"); }
+            // ... and a position may be listed twice (two merged lists): still the same set
+            if !hidden.is_empty() && cx.ch.chance("hidden_list_with_a_repeat", 1, 5) { let k = cx.ch.choose("repeat_which", hidden.len() as u64) as usize; let at = cx.ch.choose("repeat_at", hidden.len() as u64 + 1) as usize; let x = hidden[k]; hidden.insert(at, x); cx.count("probe.hidden_position_listed_twice"); }
             let Some(item) = cx.item() else { continue };
             let (iss, k2, h2) = (issued.clone(), key.clone(), hidden.clone());
             cx.step(holder, "disclose+verify", StepOpts::default(), move || {
@@ -210,7 +222,7 @@ fn corrupt(cx: &mut Cx, holder: NodeId, key: Arc<KeyMat>, issued: Arc<Cred>, sin
     // other bases / other key
     { let mut d = (*issued).clone(); d.bases = key.bases2.0[..n].to_vec(); send(cx, d, "misroute_bases".into()); }
     { let mut d = (*issued).clone(); d.bases.rotate_left(1); if n > 1 { send(cx, d, "bases_rotated".into()); } }
-    { let other = pool_key((key.idx + 1) % POOL_SIZE); let mut d = (*issued).clone(); d.pk = other.pk.clone(); send(cx, d, "misroute_key".into()); }
+    if let Some(other) = other_pool_key(key.idx) { let mut d = (*issued).clone(); d.pk = other.pk.clone(); send(cx, d, "misroute_key".into()); }
     { let mut d = (*issued).clone(); std::mem::swap(&mut d.pk.b, &mut d.pk.c); send(cx, d, "pk_b<->c".into()); }
     // Mallory: from a valid signature, without the secret key: (v * a_i^k, m_i + k*e)
     for i in 0..n {
